@@ -137,9 +137,15 @@ class ProbeMixin:
 
     def _execution(self):
         running = self._is_running
+
+        def key(o):  # priority key written from the property text, from the order's fields as they are NOW
+            if o.kind == MARKET_ORDER or o.price is None:
+                return (0, 0.0, o.placed_at, o.order_id)
+            return (1, -o.price if o.is_buy else o.price, o.placed_at, o.order_id)
+        pre = [(o.order_id, o.is_buy, key(o), o.volume) for o in list(self.buy_order_book.priority_queue) + list(self.sell_order_book.priority_queue)]
         ls = super()._execution()
         W.rec("round", self.market_id, ls, running,
-              dict(mp=self.get_market_price(), mp0=self.get_market_price(0), running_after=self._is_running, t=self.time))
+              dict(mp=self.get_market_price(), mp0=self.get_market_price(0), running_after=self._is_running, t=self.time, pre=pre))
         return ls
 
     def _update_time(self, *a, **k):
@@ -330,6 +336,11 @@ class ProbeEvent(EventABC):
         # act_before_session: the before-session hook cancels the oldest resting order of the first market directly at
         # the market (what a user event that "cleans the book at the open" does)
         self.act_before_session = settings.get("act_before_session", False)
+        # late_hooks: specifications registered through simulator._add_event while the run is going on, from inside this
+        # event's first after-order (late_on = "order") or after-execution (late_on = "execution") hook call
+        self.late_hooks = settings.get("late_hooks", [])
+        self.late_on = settings.get("late_on", "order")
+        self.late_done = False
 
     def hook_registration(self):
         hs = []
@@ -357,7 +368,15 @@ class ProbeEvent(EventABC):
                 W.rec("altered", order, order.price)
         W.observe(("hook", "order", True))
 
+    def _register_late(self, simulator, on):
+        if self.late_hooks and not self.late_done and self.late_on == on:
+            self.late_done = True
+            for (t, b, tm, flt) in self.late_hooks:
+                simulator._add_event(EventHook(self, t, b, time=(list(tm) if tm is not None else None)))
+                W.rec("late_registered", self.event_id, [t, b, tm, flt])
+
     def hooked_after_order(self, simulator, order_log):
+        self._register_late(simulator, "order")
         W.rec("hk", self.event_id, "order", False, order_log.time, order_log.market_id, order_log)
         W.observe(("hook", "order", False))
 
@@ -371,6 +390,7 @@ class ProbeEvent(EventABC):
         W.observe(("hook", "cancel", False))
 
     def hooked_after_execution(self, simulator, execution_log):
+        self._register_late(simulator, "execution")
         W.rec("hk", self.event_id, "execution", False, execution_log.time, execution_log.market_id, execution_log)
         W.observe(("hook", "execution", False))
 
@@ -481,6 +501,25 @@ def run_once(scn, prefix):
     w = RWorld(scn, prefix)
     W = w
     cfg = copy.deepcopy(scn.cfg)
+    if scn.meta.get("settings_used_before"):
+        # the caller's settings object has already served an earlier runner (a loop over seeds without deep copies):
+        # a complete throw-away run on the SAME object first, default choices, nothing of it recorded for the acceptors
+        w0 = RWorld(scn, [])
+        w0.observer = None
+        W = w0
+        try:
+            r0 = SequentialRunner(cfg, ChoiceRandom(), RecLogger())
+            for c in PROBE_CLASSES + list(scn.meta.get("classes", [])):
+                r0.class_register(c)
+            w0.runner = r0
+            r0._setup()
+            w0.phase = "run"
+            r0._run()
+        except (common.HarnessError, Divergence):
+            raise
+        except Exception:  # noqa  (the recorded run below reports what matters)
+            pass
+        W = w
     r = SequentialRunner(cfg, ChoiceRandom(), LOGGERS[scn.meta.get("logger", "rec")]())
     for c in PROBE_CLASSES + list(scn.meta.get("classes", [])):
         r.class_register(c)
@@ -499,6 +538,7 @@ def run_once(scn, prefix):
     if scn.post_setup is not None:
         scn.post_setup(w)
     sim = r.simulator
+    sim._vf_cfg = scn.cfg  # the scenario's own configuration object (the runner got a deep copy): what acceptors expect from
     w.endow = {a.agent_id: (a.cash_amount, dict(a.asset_volumes)) for a in sim.agents}
     for a in sim.agents:
         if not isinstance(a, ScriptedMixin):
